@@ -36,14 +36,16 @@ inhabited: a wildcard position of a witness must be fillable). Also holds for th
 since truncation only drops witnesses. -/
 def witness_sound : Prop :=
   ∀ (Δ : TSig) (arms : List MPat) (τ : Ty) (e : Option Head) (r : MatchReport),
-    WfSig Δ → AllInhabited Δ → ExpectedOk e τ → (∀ p ∈ arms, PatTy Δ p τ) →
+    WfSig Δ → Δ.Closed → AllInhabited Δ → τ.WfIn Δ.length → ExpectedOk e τ →
+    (∀ p ∈ arms, PatTy Δ p τ) →
     validateMatch Δ.erase arms e = some r →
     ∀ w ∈ r.missing, ∃ v, HasTy Δ v τ ∧ w.denotes v = true ∧ ∀ p ∈ arms, p.matches v = false
 
 /-- Completeness of acceptance: if the arms cover every value, the match is accepted. -/
 def covering_match_accepted : Prop :=
   ∀ (Δ : TSig) (arms : List MPat) (τ : Ty) (e : Option Head),
-    WfSig Δ → AllInhabited Δ → ExpectedOk e τ → (∀ p ∈ arms, PatTy Δ p τ) →
+    WfSig Δ → Δ.Closed → AllInhabited Δ → τ.WfIn Δ.length → ExpectedOk e τ →
+    (∀ p ∈ arms, PatTy Δ p τ) →
     (∀ v : Val, HasTy Δ v τ → ∃ p ∈ arms, p.matches v = true) →
     validateMatch Δ.erase arms e = none
 
@@ -51,7 +53,7 @@ def covering_match_accepted : Prop :=
 (known finding, `known-findings.json`): the empty match on `Void * Unit`. -/
 def witness_sound_without_inhabitation : Prop :=
   ∀ (Δ : TSig) (arms : List MPat) (τ : Ty) (e : Option Head) (r : MatchReport),
-    WfSig Δ → ExpectedOk e τ → (∀ p ∈ arms, PatTy Δ p τ) →
+    WfSig Δ → Δ.Closed → τ.WfIn Δ.length → ExpectedOk e τ → (∀ p ∈ arms, PatTy Δ p τ) →
     validateMatch Δ.erase arms e = some r →
     ∀ w ∈ r.missing, ∃ v, HasTy Δ v τ ∧ w.denotes v = true ∧ ∀ p ∈ arms, p.matches v = false
 
@@ -95,20 +97,23 @@ theorem witness_sound_needs_inhabitation : ¬ Statement.witness_sound_without_in
     unfold validateMatch uncoveredTop
     rw [uncovered]
     simp [maxReported]
-  obtain ⟨v, hv, _, _⟩ := h [[]] [] (.prod (.data 0) .unit) none _ hwf (Or.inl rfl)
-    (by simp) hval .wild (by simp)
+  have hcl : TSig.Closed [[]] := by
+    intro d n a hmem
+    cases d <;> simp [TSig.ctorsOf] at hmem
+  obtain ⟨v, hv, _, _⟩ := h [[]] [] (.prod (.data 0) .unit) none _ hwf hcl
+    (by simp [Ty.WfIn]) (Or.inl rfl) (by simp) hval .wild (by simp)
   cases hv with
   | pair hx _ =>
     cases hx with
     | ctor hmem _ => simp [TSig.ctorsOf] at hmem
 
 theorem witness_sound : Statement.witness_sound := by
-  intro Δ arms τ e r hwf hinh he hp hv w hw
+  intro Δ arms τ e r hwf hcl hinh hτ he hp hv w hw
   obtain ⟨row, hrow, rfl⟩ := (validateMatch_missing hv).2 w hw
-  exact top_witness Δ hwf hinh arms τ e he hp row hrow
+  exact top_witness Δ hwf hcl hinh arms τ hτ e he hp row hrow
 
 theorem covering_match_accepted : Statement.covering_match_accepted := by
-  intro Δ arms τ e hwf hinh he hp hcov
+  intro Δ arms τ e hwf hcl hinh hτ he hp hcov
   cases hv : validateMatch Δ.erase arms e with
   | none => rfl
   | some r =>
@@ -117,7 +122,7 @@ theorem covering_match_accepted : Statement.covering_match_accepted := by
     cases hm : r.missing with
     | nil => exact hne hm
     | cons w ws =>
-      obtain ⟨v, hty, _, hno⟩ := witness_sound Δ arms τ e r hwf hinh he hp hv w (by simp [hm])
+      obtain ⟨v, hty, _, hno⟩ := witness_sound Δ arms τ e r hwf hcl hinh hτ he hp hv w (by simp [hm])
       obtain ⟨p, hpm, hmatch⟩ := hcov v hty
       rw [hno p hpm] at hmatch
       cases hmatch
@@ -131,5 +136,168 @@ theorem uncovered_length (Δ : Sig) (m : Matrix) (columns : Nat) :
 theorem comatch_no_duplicates_iff (declared arms : List String) :
     (validateComatch declared arms).duplicates = [] ↔ arms.Nodup := by
   simp [validateComatch, dups_nil_iff]
+
+/-! ### Non-vacuity
+
+The hypotheses of the theorems above are jointly satisfiable by a non-trivial instance: the
+signature with `Bool` (data 0) and `List Bool` (data 1), one non-exhaustive and one exhaustive
+match over `List Bool`. All evaluations of the algorithm below are kernel-checked. -/
+namespace Demo
+
+def demoSig : TSig :=
+  [[("F", .unit), ("T", .unit)], [("Nil", .unit), ("Cons", .prod (.data 0) (.data 1))]]
+
+theorem demoSig_wf : WfSig demoSig := by
+  intro d
+  match d with
+  | 0 => simp [demoSig, TSig.ctorsOf]
+  | 1 => simp [demoSig, TSig.ctorsOf]
+  | _ + 2 => simp [demoSig, TSig.ctorsOf]
+
+theorem demoSig_closed : demoSig.Closed := by
+  intro d n a hmem
+  match d with
+  | 0 =>
+    simp [demoSig, TSig.ctorsOf] at hmem
+    rcases hmem with ⟨_, rfl⟩ | ⟨_, rfl⟩ <;> simp [Ty.WfIn]
+  | 1 =>
+    simp [demoSig, TSig.ctorsOf] at hmem
+    rcases hmem with ⟨_, rfl⟩ | ⟨_, rfl⟩ <;> simp [Ty.WfIn, demoSig]
+  | _ + 2 => simp [demoSig, TSig.ctorsOf] at hmem
+
+theorem demoSig_inhabited : AllInhabited demoSig := by
+  intro τ
+  induction τ with
+  | unit => intro _; exact ⟨.unit, HasTy.unit⟩
+  | «opaque» => intro _; exact ⟨.opaque 0, HasTy.opaque 0⟩
+  | data d =>
+    intro hd
+    match d, hd with
+    | 0, _ =>
+      exact ⟨.ctor "F" .unit, HasTy.ctor (a := .unit) (by simp [demoSig, TSig.ctorsOf]) HasTy.unit⟩
+    | 1, _ =>
+      exact ⟨.ctor "Nil" .unit,
+        HasTy.ctor (a := .unit) (by simp [demoSig, TSig.ctorsOf]) HasTy.unit⟩
+    | _ + 2, hd => simp only [Ty.WfIn, demoSig, List.length_cons, List.length_nil] at hd; omega
+  | prod a b iha ihb =>
+    intro h
+    obtain ⟨x, hx⟩ := iha h.1
+    obtain ⟨y, hy⟩ := ihb h.2
+    exact ⟨.pair x y, HasTy.pair hx hy⟩
+  | named f a ih =>
+    intro h
+    obtain ⟨x, hx⟩ := ih h
+    exact ⟨.named f x, HasTy.named hx⟩
+  | pack a ih =>
+    intro h
+    obtain ⟨x, hx⟩ := ih h
+    exact ⟨.pack x, HasTy.pack hx⟩
+
+theorem listBool_wfIn : (Ty.data 1).WfIn demoSig.length := by simp [Ty.WfIn, demoSig]
+
+theorem listBool_expected : ExpectedOk (some (.data 1)) (.data 1) := Or.inr (Or.inl ⟨1, rfl, rfl⟩)
+
+theorem mem_F : ("F", Ty.unit) ∈ demoSig.ctorsOf 0 := by simp [demoSig, TSig.ctorsOf]
+theorem mem_T : ("T", Ty.unit) ∈ demoSig.ctorsOf 0 := by simp [demoSig, TSig.ctorsOf]
+theorem mem_Nil : ("Nil", Ty.unit) ∈ demoSig.ctorsOf 1 := by simp [demoSig, TSig.ctorsOf]
+theorem mem_Cons : ("Cons", Ty.prod (.data 0) (.data 1)) ∈ demoSig.ctorsOf 1 := by
+  simp [demoSig, TSig.ctorsOf]
+
+/-- `match xs | Cons(T, _) -> …` : not exhaustive. -/
+def partialArms : List MPat := [.ctor 1 "Cons" (.prod (.ctor 0 "T" .unit) .wild)]
+
+theorem partialArms_typed : ∀ p ∈ partialArms, PatTy demoSig p (.data 1) := by
+  intro p hp
+  simp only [partialArms, List.mem_singleton] at hp
+  subst hp
+  exact PatTy.ctor mem_Cons (PatTy.prod (PatTy.ctor mem_T PatTy.unit) PatTy.wild)
+
+/-- The algorithm reports `Nil(_)` and `Cons(F(_), _)`. -/
+theorem partialArms_report :
+    validateMatch demoSig.erase partialArms (some (.data 1)) =
+      some { missing := [.ctor "Nil" .wild, .ctor "Cons" (.prod (.ctor "F" .wild) .wild)],
+             truncated := false } := by
+  simp [validateMatch, uncoveredTop, uncoveredFinite, demoSig, partialArms, TSig.erase,
+    Head.constructors, Sig.ctors, List.eraseDups_cons, specializeM, Con.specialize, Con.arity,
+    uncovered_zero, uncovered_nil_succ, uncovered_cons_succ, firstHead, MPat.headSpace, defaultM,
+    Con.rebuild, maxReported]
+
+/-- `witness_sound` applies: all of its hypotheses hold together for this instance. -/
+theorem partialArms_witnesses :
+    ∀ w ∈ [CPat.ctor "Nil" .wild, .ctor "Cons" (.prod (.ctor "F" .wild) .wild)],
+      ∃ v, HasTy demoSig v (.data 1) ∧ w.denotes v = true ∧
+        ∀ p ∈ partialArms, p.matches v = false :=
+  witness_sound demoSig partialArms (.data 1) (some (.data 1)) _ demoSig_wf demoSig_closed
+    demoSig_inhabited listBool_wfIn listBool_expected partialArms_typed partialArms_report
+
+/-- `match xs | Nil() -> … | Cons(T, _) -> … | Cons(F, Nil()) -> … | Cons(_, Cons _) -> …` -/
+def totalArms : List MPat :=
+  [.ctor 1 "Nil" .unit,
+   .ctor 1 "Cons" (.prod (.ctor 0 "T" .unit) .wild),
+   .ctor 1 "Cons" (.prod (.ctor 0 "F" .unit) (.ctor 1 "Nil" .unit)),
+   .ctor 1 "Cons" (.prod .wild (.ctor 1 "Cons" .wild))]
+
+theorem totalArms_typed : ∀ p ∈ totalArms, PatTy demoSig p (.data 1) := by
+  intro p hp
+  simp only [totalArms, List.mem_cons, List.not_mem_nil, or_false] at hp
+  rcases hp with rfl | rfl | rfl | rfl
+  · exact PatTy.ctor mem_Nil PatTy.unit
+  · exact PatTy.ctor mem_Cons (PatTy.prod (PatTy.ctor mem_T PatTy.unit) PatTy.wild)
+  · exact PatTy.ctor mem_Cons
+      (PatTy.prod (PatTy.ctor mem_F PatTy.unit) (PatTy.ctor mem_Nil PatTy.unit))
+  · exact PatTy.ctor mem_Cons (PatTy.prod PatTy.wild (PatTy.ctor mem_Cons PatTy.wild))
+
+/-- The algorithm accepts the exhaustive match (with and without the data hint). -/
+theorem totalArms_accepted : validateMatch demoSig.erase totalArms (some (.data 1)) = none := by
+  simp [validateMatch, uncoveredTop, uncoveredFinite, demoSig, totalArms, TSig.erase,
+    Head.constructors, Sig.ctors, List.eraseDups_cons, specializeM, Con.specialize, Con.arity,
+    uncovered_zero, uncovered_cons_succ, firstHead, MPat.headSpace, defaultM, maxReported]
+
+theorem totalArms_accepted_nohint : validateMatch demoSig.erase totalArms none = none := by
+  simp [validateMatch, uncoveredTop, uncoveredFinite, demoSig, totalArms, TSig.erase,
+    Head.constructors, Sig.ctors, List.eraseDups_cons, specializeM, Con.specialize, Con.arity,
+    uncovered_zero, uncovered_cons_succ, firstHead, MPat.headSpace, defaultM, maxReported]
+
+/-- `accepted_match_covers` applies. -/
+theorem totalArms_cover :
+    ∀ v, HasTy demoSig v (.data 1) → ∃ p ∈ totalArms, p.matches v = true :=
+  accepted_match_covers demoSig totalArms (.data 1) (some (.data 1)) demoSig_wf listBool_expected
+    totalArms_typed totalArms_accepted
+
+/-- `uncovered_sound` applies (matrix level, no hint). -/
+theorem totalArms_matrix_covers :
+    ∀ vs, All₂ (HasTy demoSig) vs [.data 1] →
+      ∃ row ∈ totalArms.map (fun p => [p]), rowMatches row vs = true :=
+  uncovered_sound demoSig (totalArms.map fun p => [p]) [.data 1] demoSig_wf
+    (singleton_rows_typed totalArms_typed)
+    (validateMatch_eq_none.1 totalArms_accepted_nohint)
+
+/-- A hand proof (not via the algorithm) that a two-arm match covers `List Bool` … -/
+def simpleArms : List MPat := [.ctor 1 "Nil" .unit, .ctor 1 "Cons" .wild]
+
+theorem simpleArms_typed : ∀ p ∈ simpleArms, PatTy demoSig p (.data 1) := by
+  intro p hp
+  simp only [simpleArms, List.mem_cons, List.not_mem_nil, or_false] at hp
+  rcases hp with rfl | rfl
+  · exact PatTy.ctor mem_Nil PatTy.unit
+  · exact PatTy.ctor mem_Cons PatTy.wild
+
+theorem simpleArms_cover_by_hand :
+    ∀ v, HasTy demoSig v (.data 1) → ∃ p ∈ simpleArms, p.matches v = true := by
+  intro v hv
+  cases hv with
+  | ctor hmem hv' =>
+    simp [demoSig, TSig.ctorsOf] at hmem
+    rcases hmem with ⟨rfl, rfl⟩ | ⟨rfl, rfl⟩
+    · cases hv'
+      exact ⟨.ctor 1 "Nil" .unit, by simp [simpleArms], by simp [MPat.matches]⟩
+    · exact ⟨.ctor 1 "Cons" .wild, by simp [simpleArms], by simp [MPat.matches]⟩
+
+/-- … so `covering_match_accepted` applies: all of its hypotheses hold together. -/
+theorem simpleArms_accepted : validateMatch demoSig.erase simpleArms (some (.data 1)) = none :=
+  covering_match_accepted demoSig simpleArms (.data 1) (some (.data 1)) demoSig_wf demoSig_closed
+    demoSig_inhabited listBool_wfIn listBool_expected simpleArms_typed simpleArms_cover_by_hand
+
+end Demo
 
 end ZV.Props.C04
